@@ -33,6 +33,7 @@
 //   maxlen K B              length of the text of the largest (and smallest) value of the kind in base B
 //   atorep K B LEN PAT TAIL igris_ato<K> on PAT repeated to LEN bytes followed by TAIL (long inputs)
 //   seq   K V B1,B2,..      the same value rendered into ONE buffer in several bases, one after the other
+//   asml  W V1 [V2 V3 V4]   debug_asmlink_args<W>x<N>; asmr V: debug_asmlink_ret8..64, _test, dprptr(V), dprptrln(V), debug_print(NULL)
 #include "common/hv.h"
 #include <array>
 #include <climits>
@@ -63,6 +64,11 @@ extern "C"
     void debug_printdec_uint32(uint32_t);
     void debug_printdec_uint64(uint64_t);
     void debug_printhex_n(uint8_t *, int);
+    void dprptr(const void *);
+    void dprptrln(const void *);
+    void c07_asmlink_args(int, int, const uint64_t *);
+    uint64_t c07_asmlink_ret(int);
+    void c07_asmlink_test(void);
 }
 
 // the platform hook of the debug-print library: capture the characters
@@ -997,6 +1003,53 @@ static void run_seq(const std::vector<std::string> &w, out &o)
     o.tag("same-buffer-several-bases");
 }
 
+
+static void run_asml(const std::vector<std::string> &w, out &o)
+{
+    int W = atoi(w[1].c_str());
+    size_t n = w.size() - 2;
+    uint64_t v[4] = {0, 0, 0, 0};
+    for (size_t i = 0; i < n; i++) v[i] = h64(w[2 + i]) & wmask(W);
+    if (W != 8 && W != 16 && W != 32) { o.result = "bad-op"; return; }
+    cap_clear();
+    c07_asmlink_args(W, (int)n, v);
+    std::string got = cap_str(), ref;
+    o.result = hex(got);
+    for (size_t i = 0; i < n; i++)
+    {
+        char t[24];
+        snprintf(t, sizeof t, "%0*llX:", W / 4, (unsigned long long)v[i]);
+        ref += t;
+    }
+    if (got != ref) o.fail("debug_asmlink_args" + std::to_string(W) + "x" + std::to_string(n) + " emitted `" + show(got) + "`, expected `" + ref + "`");
+    o.tag("asmlink-args");
+}
+static void run_asmr(const std::vector<std::string> &w, out &o)
+{
+    uint64_t v = h64(w[1]);
+    cap_clear();
+    c07_asmlink_test();
+    std::string t = cap_str();
+    cap_clear();
+    dprptr((const void *)(uintptr_t)v);
+    std::string a = cap_str();
+    cap_clear();
+    dprptrln((const void *)(uintptr_t)v);
+    std::string b = cap_str();
+    cap_clear();
+    debug_print((const char *)0);
+    std::string nul = cap_str();
+    o.result = hexn(c07_asmlink_ret(8), 2) + " " + hexn(c07_asmlink_ret(16), 4) + " " + hexn(c07_asmlink_ret(32), 8) + " " + hexn(c07_asmlink_ret(64), 16) + " " +
+               hex(t) + " " + hex(a) + " " + hex(b) + " " + hex(nul);
+    char ref[24];
+    snprintf(ref, sizeof ref, "%016llX", (unsigned long long)v);
+    if (a != ref || b != std::string(ref) + "\r\n") o.fail("dprptr(" + hexn(v, 16) + ") emitted `" + show(a) + "` / `" + show(b) + "`");
+    if (t != "ABCDE12345" || nul != "NULL") o.fail("debug_asmlink_test / debug_print(NULL)");
+    if (c07_asmlink_ret(8) != 0xFE || c07_asmlink_ret(16) != 0xFEDC || c07_asmlink_ret(32) != 0xFEDCBA98u || c07_asmlink_ret(64) != 0xFEDCBA9876543210ull)
+        o.fail("debug_asmlink_ret constants");
+    o.tag("asmlink-ret-dprptr");
+}
+
 static void run_op(const std::vector<std::string> &w, const std::string &, out &o)
 {
     // hv::main_ arms a 3 s watchdog per op.  On this (virtualised, shared) machine a process
@@ -1025,6 +1078,8 @@ static void run_op(const std::vector<std::string> &w, const std::string &, out &
     else if (op == "maxlen" && w.size() == 3 && kind_of(w[1]) >= 0) run_maxlen(w, o);
     else if (op == "atorep" && w.size() == 6 && kind_of(w[1]) >= 0) run_atorep(w, o);
     else if (op == "seq" && w.size() == 4 && kind_of(w[1]) >= 0) run_seq(w, o);
+    else if (op == "asml" && w.size() >= 3 && w.size() <= 6) run_asml(w, o);
+    else if (op == "asmr" && w.size() == 2) run_asmr(w, o);
     else if (op == "h2h" && w.size() == 2)
     {
         uint8_t c = (uint8_t)h64(w[1]);
@@ -1362,6 +1417,17 @@ static void gen(rng &r, const std::string &tier)
                    hex(std::string(1, (char)r.next()) + std::string(1, '\0')).c_str());
         }
     }
+    // (15) the asmlink self-test printers, dprptr / dprptrln, debug_print(NULL)
+    for (int W : {8, 16, 32})
+        for (int n = 1; n <= 4; n++)
+            for (int i = 0; i < (th ? 40 : 8); i++)
+            {
+                std::string l = "asml " + std::to_string(W);
+                std::vector<uint64_t> bv = boundary_values(r, W, false, 16, 4);
+                for (int j = 0; j < n; j++) l += " " + hexn(bv[r.below(bv.size())] & wmask(W), W / 4);
+                printf("%s\n", l.c_str());
+            }
+    for (uint64_t v : boundary_values(r, 64, false, 16, th ? 60 : 10)) printf("asmr %016llx\n", (unsigned long long)v);
     // (14) one buffer, several calls: a long text first, shorter ones over it, bad bases in between
     for (int i = 0; i < (th ? 400 : 80); i++)
     {
